@@ -39,10 +39,14 @@ def gen_request(r, i):
     k = r.random()
     if k < 0.6:
         content = gen_docs.doc(doc_r, plugins=PLUGINS, max_blocks=4)
-    elif k < 0.8:
+    elif k < 0.75:
         content = gen_docs.noise(doc_r, 1, 30)
+    elif k < 0.82:
+        content = gen_docs.edge_doc(doc_r)
     else:
-        content = r.choice(["Hi **Markdown**", "a\r\nb\r\n", "x", "~~s~~ https://e.x | a\n-|-\n1|2\n", "é 😀 <b>&amp;</b>", " lead", "\n\n# t\n"])
+        content = r.choice(["Hi **Markdown**", "a\r\nb\r\n", "x", "~~s~~ https://e.x | a\n-|-\n1|2\n", "é 😀 <b>&amp;</b>", " lead", "\n\n# t\n",
+                            # non-empty content that is white space only, of the narrow and of the wide kind
+                            " ", "\t\n", "\u00a0", "\u3000\n", "\u2003 \u2003", "\x0c", "\u2028", "\x1c\x1d", " \n \n", "\ufeff", "\x0b\n\x0b"])
     content = content.replace("\x00", "")
     if not content.strip("\n") or content.startswith("-") or "\ud800" in content:
         content = "x" + content.lstrip("-")
@@ -290,7 +294,7 @@ def oracle(ctx, extra):
                 fails.append({"input": dict(q2, channel="all"), "kind": "channels-disagree", "got": [list(o) for o in outs]})
         return {"evaluations": n + nsub, "distinct_nontrivial": len({json.dumps([q["content"], q["plugins"], q["escape"], q["hardwrap"], q["renderer"], q["channel"], q["output"]]) for q in reqs[:n]}),
                 "failures": fails, "subprocess_runs": nsub,
-                "rule": "requests = document (structured/noise/fixed incl. CRLF and non-ASCII) x channel (-m,-f,stdin) x "
+                "rule": "requests = document (structured/noise/edge documents/fixed incl. CRLF, non-ASCII and white-space-only content of the narrow and wide kind) x channel (-m,-f,stdin) x "
                         "plugin list (none or 1-4 names, possibly split over two -p) x --escape x --hardwrap x renderer "
                         "(default/html/rst/markdown) x output (stdout/-o) x short/long flags x option order; CLI run "
                         "in-process (runpy) for volume and as real subprocesses on a sample; compared with "
